@@ -90,7 +90,7 @@ INFO['C07'] = dict(
     sim_time_unit='forward load steps', components={'real': ['optimism.inverse.NonlinearSolve (both custom-VJP rules)'] + _SOLVER_COMPONENTS['real'], 'stub': _SOLVER_COMPONENTS['stub']},
     probe_names=['ift_compared', 'ift_bound_loose'],
     assumptions=COMMON_ASSUME + [
-        'every 24th run index is an FE-level history (fe_app_sim statics) ending with the MechanicsInverse / AdjointFunctionSpace helper audit against dense jacfwd Jacobians of the public forward maps',
+        'every 48th (quick) or 16th (thorough) run index is an FE-level history (fe_app_sim statics) ending with the MechanicsInverse / AdjointFunctionSpace helper audit against dense jacfwd Jacobians of the public forward maps',
         'IFT premise: forward solve converged (|grad| <= 10 tol) and Hessian PD at the returned solution, else skipped'])
 _MAT = {'real': ['optimism.material.J2Plastic', 'optimism.material.Hardening', 'optimism.ScalarRootFind', 'optimism.TensorMath',
                  'optimism.material.HyperViscoelastic', 'optimism.material.MultiBranchHyperViscoelastic', 'jit(vmap(...)) over points'],
